@@ -302,6 +302,10 @@ def grammar_jwe(fz: Fz, rng):
             vals = [v for v in P2C_VALUES if not (isinstance(v, int) and not isinstance(v, bool) and v in P2C_SLOW)]
         if m == "epk":
             vals = vals + epk_values(rng)
+            if isinstance(ph.get("epk"), dict):
+                # the genuine ephemeral key with one more member (a JWK may carry any): deeply nested, huge, oddly typed - the key agreement runs on it
+                vals += [{**ph["epk"], "kid": 5}, {**ph["epk"], "use": ["enc"]}, {**ph["epk"], "x5c": "A" * 100000}, {**ph["epk"], "d": ph["epk"].get("x")},
+                         {**ph["epk"], "oth": [{"r": "AA"}] * 1000}, {**ph["epk"], "alg": None}, {**ph["epk"], "key_ops": []}, {**ph["epk"], "ext": float("nan")}]
         b64_member = m in ("apu", "apv", "p2s", "iv", "tag", "x5t")
         if b64_member:
             # members that hold base64url text: every way such a text can be wrong (the standard alphabet's '+' and '/', padding, impossible lengths ...)
@@ -529,6 +533,24 @@ def inner_data_family(fz: Fz, rng):
             fz.run("deep-header", name, lambda ep=ep: ep(f"{p64e}..AAAAAAAAAAAAAAAA.AAAA.AAAAAAAAAAAAAAAAAAAAAA"), {"depth": depth})
         for name, ep in jwe_json_eps(j, j.key(gen.new_oct(128)), ["dir", "A128GCM"]):
             fz.run("deep-header", name, lambda ep=ep: ep({"protected": p64e, "iv": "AAAAAAAAAAAAAAAA", "ciphertext": "AAAA", "tag": "AAAAAAAAAAAAAAAAAAAAAA"}), {"depth": depth, "form": "flat"})
+    # a genuine ephemeral key that carries one more, deeply nested member (a JWK may carry any member): the key agreement imports it
+    for alg_, enc_ in (("ECDH-ES", "A128GCM"), ("ECDH-ES+A128KW", "A128CBC-HS256")):
+        for crv in ("P-256", "X25519"):
+            rk_, _ = g.keys_for(alg_, enc_, crv)
+            bt = g.make("compact", enc_, [(alg_, rk_, None)], b"deep epk")
+            segs_ = bt.token.split(".")
+            htxt = b64u_dec(segs_[0])
+            at = htxt.index(b'"epk":{') + len(b'"epk":{')
+            for depth in (60, 200, 400, 480, 600, 900, 1200, 1500, 1800, 2000, 100000):
+                for opn, cls in ((b"[", b"]"), (b'{"n":', b"}")):
+                    inner = opn * depth + (b"1" if opn != b"[" else b"") + cls * depth
+                    h2 = htxt[:at] + b'"extra":' + inner + b"," + htxt[at:]
+                    tok2 = ".".join([b64u_enc(h2)] + segs_[1:])
+                    for name, ep in jwe_eps(j, j.key(rk_), [alg_, enc_]):
+                        fz.run("deep-header", name, lambda ep=ep, tok2=tok2: ep(tok2), {"depth": depth, "where": "member of the genuine epk", "alg": alg_, "crv": crv})
+                    jt = {"protected": b64u_enc(h2), "encrypted_key": segs_[1], "iv": segs_[2], "ciphertext": segs_[3], "tag": segs_[4]}
+                    for name, ep in jwe_json_eps(j, j.key(rk_), [alg_, enc_]):
+                        fz.run("deep-header", name, lambda ep=ep, jt=jt: ep(jt), {"depth": depth, "where": "member of the genuine epk", "alg": alg_, "crv": crv, "form": "flat"})
     deflate_streams()
 
 
